@@ -24,6 +24,8 @@ anything else than these rewrites:
   N6b a second `v = E` under a first one that still holds is dropped; `v = A; if c: v = B` is `v = B if c else A`; `v = E; return f(v)`
       is `return f(E)`; `True if a else b` is `a or b` for truth-valued a, b (and the three siblings); `d.update({k: v for k, v in e.items()})`
       is `d.update(e)`;
+  N6c a function defined inside the function and only ever called by name (one returned expression, a decision list, or a
+      straight-line procedure) is substituted at its calls;
   N7  `x = x op e` is `x op= e`; `v = <constant or empty container>` for a local v sinks past statements that do not mention v
       and into both arms of an if/else;
   N8  bound names (locals, comprehension variables, lambda parameters) are numbered in order of appearance.
@@ -1122,6 +1124,13 @@ def nf_text(fn: ast.AST, sigs: Optional[Dict[str, List[str]]] = None, inline: bo
         if inline:
             # re-parse so that node identities are fresh and consistent for the position bookkeeping of the inliner
             f = ast.parse(ast.unparse(f)).body[0]
+            try:
+                # after the loops of a local function have become any()/comprehensions, so that both spellings are substituted alike
+                if canon.inline_local_functions(f):
+                    changed = True
+                    f = ast.parse(ast.unparse(f)).body[0]
+            except Exception:
+                pass
             changed |= bool(canon.inline_new_locals(f, set()))
         f = _Aug().visit(f)
         _fix_empty(f)
